@@ -185,18 +185,14 @@ Qed.
 (* separate_out through handles *)
 Lemma alias_sep_value a r o a' vst h :
   views (cells a) (hs a) = Ok vst -> wf_store vst -> nth_error (hs a) r = Some h -> r <> o ->
+  (match h with HView _ _ _ => False | _ => True end) ->
   astep a (OSep r o) = Ok a' ->
   exists x, nth_error (cells a') (hcell h) = Some x /\
     (forall c, tot x c == tot_at vst c r - tot_at vst c o) /\
     (forall j', j' <> hcell h -> nth_error (cells a') j' = nth_error (cells a) j') /\
     length (hs a') = length (hs a).
 Proof.
-  intros V WS NH NE H. pose proof WS as [WS1 CO].
-  assert (match h with HView _ _ _ => False | _ => True end) as NV.
-  { unfold astep in H. rewrite V in H. cbn [bind] in H.
-    destruct (safe_op (hs a) vst (OSep r o)) eqn:SAFE; cbn [negb] in H; [|discriminate].
-    simpl in SAFE. apply andb_true_iff in SAFE. destruct SAFE as [_ S1]. unfold is_view in S1. rewrite NH in S1.
-    destruct h; auto. discriminate. }
+  intros V WS NH NE NV H. pose proof WS as [WS1 CO].
   assert (exists st', step vst (OSep r o) = Ok st') as [st' ST].
   { unfold astep in H. rewrite V in H. cbn [bind] in H. destruct (safe_op _ _ _); cbn [negb] in H; [|discriminate].
     destruct (step vst (OSep r o)); [eauto | discriminate]. }
@@ -219,18 +215,14 @@ Qed.
 (* scale through handles *)
 Lemma alias_scale_value a i k a' vst h :
   views (cells a) (hs a) = Ok vst -> nth_error (hs a) i = Some h ->
+  (match h with HView _ _ _ => False | _ => True end) ->
   astep a (OScale i k) = Ok a' ->
   exists x, nth_error (cells a') (hcell h) = Some x /\
     (forall c, tot x c == k * tot_at vst c i) /\
     (forall j', j' <> hcell h -> nth_error (cells a') j' = nth_error (cells a) j') /\
     length (hs a') = length (hs a).
 Proof.
-  intros V NH H.
-  assert (match h with HView _ _ _ => False | _ => True end) as NV.
-  { unfold astep in H. rewrite V in H. cbn [bind] in H.
-    destruct (safe_op (hs a) vst (OScale i k)) eqn:SAFE; cbn [negb] in H; [|discriminate].
-    simpl in SAFE. apply andb_true_iff in SAFE. destruct SAFE as [_ S1]. unfold is_view in S1. rewrite NH in S1.
-    destruct h; auto. discriminate. }
+  intros V NH NV H.
   destruct (views_nth _ _ _ V) as [LV NVW]. destruct (NVW i h NH) as [rs [VO NR]].
   assert (step vst (OScale i k) = Ok (upd vst i (scale k rs))) as ST
     by (simpl; unfold gets; rewrite NR; reflexivity).
@@ -292,6 +284,7 @@ Qed.
 Lemma alias_copy_remove a d s a' vst hd hsrc :
   views (cells a) (hs a) = Ok vst -> wf_store vst ->
   nth_error (hs a) d = Some hd -> nth_error (hs a) s = Some hsrc ->
+  (match hd with HView _ _ _ => False | _ => True end) ->
   (match hsrc with HView _ _ _ => False | _ => True end) ->
   d <> s -> hcell hd <> hcell hsrc ->
   astep a (OCopyFlow d s IdAll true false) = Ok a' ->
@@ -300,12 +293,7 @@ Lemma alias_copy_remove a d s a' vst hd hsrc :
     (forall j', j' <> hcell hd -> j' <> hcell hsrc -> nth_error (cells a') j' = nth_error (cells a) j') /\
     length (hs a') = length (hs a).
 Proof.
-  intros V WS ND NS NVS NE NC H.
-  assert (match hd with HView _ _ _ => False | _ => True end) as NVD.
-  { unfold astep in H. rewrite V in H. cbn [bind] in H.
-    destruct (safe_op (hs a) vst (OCopyFlow d s IdAll true false)) eqn:SAFE; cbn [negb] in H; [|discriminate].
-    simpl in SAFE. apply andb_true_iff in SAFE. destruct SAFE as [_ S1]. unfold is_view in S1. rewrite ND in S1.
-    destruct hd; auto. discriminate. }
+  intros V WS ND NS NVD NVS NE NC H.
   assert (exists st', step vst (OCopyFlow d s IdAll true false) = Ok st') as [st' ST].
   { unfold astep in H. rewrite V in H. cbn [bind] in H. destruct (safe_op _ _ _); cbn [negb] in H; [|discriminate].
     destruct (step vst (OCopyFlow d s IdAll true false)); [eauto | discriminate]. }
@@ -441,6 +429,7 @@ Qed.
 Lemma alias_copy_partial a d s i remove exclude a' vst hd hsrc :
   views (cells a) (hs a) = Ok vst -> wf_store vst ->
   nth_error (hs a) d = Some hd -> nth_error (hs a) s = Some hsrc ->
+  (match hd with HView _ _ _ => False | _ => True end) ->
   (match hsrc with HView _ _ _ => False | _ => True end) ->
   d <> s -> hcell hd <> hcell hsrc -> i <> IdAll ->
   astep a (OCopyFlow d s i remove exclude) = Ok a' ->
@@ -451,12 +440,7 @@ Lemma alias_copy_partial a d s i remove exclude a' vst hd hsrc :
     (forall j', j' <> hcell hd -> j' <> hcell hsrc -> nth_error (cells a') j' = nth_error (cells a) j') /\
     length (hs a') = length (hs a).
 Proof.
-  intros V WS ND NS NVS NE NC NA H.
-  assert (match hd with HView _ _ _ => False | _ => True end) as NVD.
-  { unfold astep in H. rewrite V in H. cbn [bind] in H.
-    destruct (safe_op (hs a) vst (OCopyFlow d s i remove exclude)) eqn:SAFE; cbn [negb] in H; [|discriminate].
-    simpl in SAFE. apply andb_true_iff in SAFE. destruct SAFE as [_ S1]. unfold is_view in S1. rewrite ND in S1.
-    destruct hd; auto. discriminate. }
+  intros V WS ND NS NVD NVS NE NC NA H.
   assert (exists st', step vst (OCopyFlow d s i remove exclude) = Ok st') as [st' ST].
   { unfold astep in H. rewrite V in H. cbn [bind] in H. destruct (safe_op _ _ _); cbn [negb] in H; [|discriminate].
     destruct (step vst (OCopyFlow d s i remove exclude)); [eauto | discriminate]. }
@@ -873,18 +857,14 @@ Lemma alias_copy_remove_from_substream a d s a' vst hd j p lbl m i :
   views (cells a) (hs a) = Ok vst -> wf_store vst -> wf_stream (MS m) ->
   nth_error (hs a) d = Some hd -> nth_error (hs a) s = Some (HView j p lbl) ->
   nth_error (cells a) j = Some (MS m) -> pindex_exact p (mphases m) = Some i ->
+  (match hd with HView _ _ _ => False | _ => True end) ->
   d <> s -> hcell hd <> j ->
   astep a (OCopyFlow d s IdAll true false) = Ok a' ->
   exists x1 x2, nth_error (cells a') (hcell hd) = Some x1 /\ nth_error (cells a') j = Some x2 /\
     (forall c, tot x1 c == tot_at vst c s /\ tot x2 c == tot (MS m) c - tot_at vst c s) /\
     (forall j', j' <> hcell hd -> j' <> j -> nth_error (cells a') j' = nth_error (cells a) j').
 Proof.
-  intros V WS WM ND NS NCJ PI NE NC H.
-  assert (match hd with HView _ _ _ => False | _ => True end) as NVD.
-  { unfold astep in H. rewrite V in H. cbn [bind] in H.
-    destruct (safe_op (hs a) vst (OCopyFlow d s IdAll true false)) eqn:SAFE; cbn [negb] in H; [|discriminate].
-    simpl in SAFE. apply andb_true_iff in SAFE. destruct SAFE as [_ S1]. unfold is_view in S1. rewrite ND in S1.
-    destruct hd; auto. discriminate. }
+  intros V WS WM ND NS NCJ PI NVD NE NC H.
   pose proof H as H0. unfold astep in H. rewrite V in H. cbn [bind] in H.
   destruct (safe_op (hs a) vst (OCopyFlow d s IdAll true false)); cbn [negb] in H; [|discriminate].
   destruct (step vst (OCopyFlow d s IdAll true false)) as [st'|] eqn:ST; cbn [bind] in H; [|discriminate].
